@@ -181,6 +181,38 @@ func checkC16(c *Case, st *Stats) string {
 			}
 		}
 		st.Class("positions-checked")
+		// the same member through an accessor: Get reads it, Set writes it and nothing else
+		if len(sp.name)%2 == 0 {
+			var acfg jsonpath.Config
+			acfg.SetAccessorMode()
+			target := map[string]interface{}{}
+			for k, v := range obj {
+				target[k] = v
+			}
+			ga, ea := jsonpath.Retrieve("$"+sp.sel, target, acfg)
+			st.Eval(1)
+			if ea != nil || len(ga) != 1 {
+				return fmt.Sprintf("key %q, spelling %s, accessor mode: (%d results, %v)", key, sp.name, len(ga), ea)
+			}
+			a, ok := ga[0].(jsonpath.Accessor)
+			if !ok || a.Get == nil || a.Set == nil || !reflect.DeepEqual(a.Get(), want) {
+				return fmt.Sprintf("key %q, spelling %s, accessor mode: result is %s, the member holds %s", key, sp.name, JSONString(ga[0]), JSONString(want))
+			}
+			a.Set("WRITTEN-THROUGH-ACCESSOR")
+			for k, v := range obj {
+				expect := v
+				if k == key {
+					expect = "WRITTEN-THROUGH-ACCESSOR"
+				}
+				if !reflect.DeepEqual(target[k], expect) {
+					return fmt.Sprintf("key %q, spelling %s: Set through the accessor left member %q = %s (expected %s)", key, sp.name, k, JSONString(target[k]), JSONString(expect))
+				}
+			}
+			if len(target) != len(obj) {
+				return fmt.Sprintf("key %q, spelling %s: Set through the accessor changed the number of members from %d to %d", key, sp.name, len(obj), len(target))
+			}
+			st.Class("accessor-get-set")
+		}
 	}
 	// the member stays addressable by a parsed function whose previous call was cut short: a user
 	// function panicked half-way through the traversal and the caller recovered
